@@ -14,6 +14,7 @@ import (
 	"math"
 	"os"
 	"path/filepath"
+	"sort"
 	"strconv"
 
 	"github.com/openGemini/openGemini/lib/logger"
@@ -466,11 +467,9 @@ func checksum(es []raftpb.Entry) (uint64, uint64) {
 }
 
 func (w *world) cmpEntries(what string, got, want []raftpb.Entry) {
-	if len(got) != len(want) {
-		w.fail("ents-len", "%s: %d entries, reference %d", what, len(got), len(want))
-		return
-	}
-	for i := range got {
+	// the first differing entry decides the kind of the failure; a different number of entries is reported only when
+	// the common prefix agrees (an emptied payload makes the entry smaller, so a size-limited answer can be longer)
+	for i := 0; i < len(got) && i < len(want); i++ {
 		g, r := entTuple(got[i]), entTuple(want[i])
 		if g == r {
 			continue
@@ -481,6 +480,9 @@ func (w *world) cmpEntries(what string, got, want []raftpb.Entry) {
 			w.fail("ents-diff", "%s: entry #%d disk=%v reference=%v", what, i, g, r)
 		}
 		return
+	}
+	if len(got) != len(want) {
+		w.fail("ents-len", "%s: %d entries, reference %d", what, len(got), len(want))
 	}
 }
 
@@ -565,6 +567,20 @@ func main() {
 		}
 		for _, ops := range witnessCases() {
 			gen.Emit(runCase("witness", fromList(ops)))
+		}
+		// minimised past failures and hand-picked cases (corpus/C17/*.json), before anything generated
+		if dir := os.Getenv("VERIF_CORPUS"); dir != "" {
+			names, _ := filepath.Glob(filepath.Join(dir, "*.json"))
+			sort.Strings(names)
+			for _, nm := range names {
+				b, err := os.ReadFile(nm)
+				var in struct {
+					Ops []Op `json:"ops"`
+				}
+				if err == nil && json.Unmarshal(b, &in) == nil && len(in.Ops) > 0 {
+					gen.Emit(runCase("corpus", fromList(in.Ops)))
+				}
+			}
 		}
 		r := gen.FromEnv(17)
 		for i := 0; i < n[0]; i++ {
